@@ -1,5 +1,6 @@
 import KafkaModel.Model.Consumer
 import KafkaModel.Model.Producer
+import KafkaModel.Model.Net
 import KafkaModel.Spec.Broker
 import KafkaModel.Algo.Inflate
 import KafkaModel.Algo.Snappy
@@ -107,12 +108,16 @@ inductive Ev
   | connect (host : Bytes) (ok : Bool)
   | req (host : Bytes) (frame : Bytes) (reply : Option Bytes)   -- reply payload; none = no reply read/sent
   | io (host : Bytes) (what : String)
+  /-- raw bytes written by the "broker" in place of the framed reply of the preceding request (hostile replies) -/
+  | raw (host : Bytes) (bytes : Bytes)
 deriving Repr
 
 structure RW where
   evs : List Ev
-  /-- a reply that has been "sent" by the broker and awaits `recv` -/
+  /-- per host: the bytes the broker has written on the current connection and that were not read yet -/
   pending : List (Bytes × Bytes) := []
+  /-- which object's connections the running operation uses (`c`lient, `k`onsumer, `p`roducer): each owns its own pool -/
+  owner : Bytes := []
   mismatches : List String := []
 deriving Repr
 
@@ -120,6 +125,7 @@ def evHost : Ev → Bytes
   | .connect h _ => h
   | .req h _ _ => h
   | .io h _ => h
+  | .raw h _ => h
 
 /-- a produced partition set, with a compressed wrapper opened by the independent decompressors
     (the model cannot predict flate2's / snap's exact output; what must agree is what it decompresses to) -/
@@ -157,17 +163,44 @@ def canonReq (frame : Bytes) : String :=
 
 def note (w : RW) (s : String) : RW := { w with mismatches := w.mismatches ++ [s] }
 
+def connKey (w : RW) (host : Bytes) : Bytes := w.owner ++ [0] ++ host
+def streamOf (w : RW) (host : Bytes) : Bytes := ((w.pending.find? (·.1 = connKey w host)).map (·.2)).getD []
+def setStream (w : RW) (host : Bytes) (bs : Bytes) : RW :=
+  { w with pending := (w.pending.filter (·.1 ≠ connKey w host)) ++ (if bs.isEmpty then [] else [(connKey w host, bs)]) }
+
+/-- the object an operation runs on -/
+def ownerOf (toks : List String) : Bytes :=
+  match toks with
+  | "c" :: _ => strBytes "c"
+  | "k" :: _ => strBytes "k"
+  | "p" :: _ => strBytes "p"
+  | op :: _ =>
+    if op ∈ ["consumer_create", "poll", "poll_keep", "seek", "consume", "commit", "consumer_drop", "consumer_into_client"] then strBytes "k"
+    else if op ∈ ["producer_create", "send_all", "send", "producer_into_client"] then strBytes "p"
+    else strBytes "c"
+  | [] => strBytes "c"
+
+def dropStreams (pend : List (Bytes × Bytes)) (o : Bytes) : List (Bytes × Bytes) := pend.filter fun x => x.1.takeWhile (· ≠ 0) ≠ o
+def moveStreams (pend : List (Bytes × Bytes)) (src dst : Bytes) : List (Bytes × Bytes) :=
+  (dropStreams pend dst).map fun x => if x.1.takeWhile (· ≠ 0) = src then (dst ++ x.1.dropWhile (· ≠ 0), x.2) else x
+
 def replayEnv (cx : Codecs) (comp : Nat → Bytes → Bytes) (debug : Bool) : Env RW where
   connect := fun w host =>
     match w.evs with
     | .connect h ok :: r =>
+      -- a new connection starts with an empty stream
+      let w := if ok then setStream w h [] else w
       if h = host then ({ w with evs := r }, ok)
       else (note { w with evs := r } s!"model connects to {toHexTok host}, implementation to {toHexTok h}", ok)
     | _ => (note w s!"model connects to {toHexTok host}, implementation does not", false)
   send := fun w host frame =>
     match w.evs with
     | .req h f reply :: r =>
-      let w' := { w with evs := r, pending := match reply with | some p => w.pending ++ [(h, p)] | none => w.pending }
+      -- what the broker writes in return: the framed reply, or the raw bytes recorded right after the request
+      let (written, r) := match r with
+        | .raw _ bs :: r' => (bs, r')
+        | _ => ((match reply with | some p => encI 4 p.length ++ p | none => []), r)
+      let w' := setStream { w with evs := r } h (streamOf w h ++ written)
       let w' := if h ≠ host then note w' s!"model sends to {toHexTok host}, implementation to {toHexTok h}" else w'
       let w' := if canonReq f ≠ canonReq frame then
           note w' s!"request differs: model {canonReq frame} | implementation {canonReq f}" else w'
@@ -176,13 +209,19 @@ def replayEnv (cx : Codecs) (comp : Nat → Bytes → Bytes) (debug : Bool) : En
       if h = host then ({ w with evs := r }, .error .io) else (note { w with evs := r } "send-fail on other host", .error .io)
     | _ => (note w s!"model sends {canonReq frame} to {toHexTok host}, implementation sends nothing", .error .io)
   recv := fun w host =>
-    match w.evs with
-    | .io h "recv-fail" :: r =>
-      if h = host then ({ w with evs := r }, .error .io) else (note { w with evs := r } "recv-fail on other host", .error .io)
-    | _ =>
-      match w.pending.find? (·.1 = host) with
-      | some (_, p) => ({ w with pending := w.pending.filter (·.1 ≠ host) }, .ok p)
-      | none => (note w s!"model reads a reply from {toHexTok host}, none was recorded", .error .io)
+    -- `__get_response` on what the connection's stream holds (Model/Net.lean)
+    let (st, res) := getResponse { incoming := streamOf w host }
+    let failNext : Option (Bytes × List Ev) := match w.evs with
+      | .io h "recv-fail" :: r => some (h, r)
+      | _ => none
+    match res, failNext with
+    | Except.error Err.codec, _ => (setStream w host st.incoming, Except.error Err.codec)
+    | _, some (h, r) =>
+      -- a read failed (injected, or the stream ran dry): whatever was read so far is lost with the connection
+      let w := { w with evs := r }
+      if h = host then (w, .error .io) else (note w "recv-fail on other host", .error .io)
+    | Except.ok p, none => (setStream w host st.incoming, Except.ok p)
+    | Except.error e, none => (note w s!"model reads a reply from {toHexTok host}, none (or too little) was recorded", Except.error e)
   pick := fun w cands =>
     match w.evs.head? with
     | some e => if evHost e ∈ cands then some (evHost e) else cands.head?
@@ -547,6 +586,10 @@ def parseOps (lines : List String) : List OpRec :=
             | _ => none
           go rest (some (i, t, .req h f reply :: evs)) su n acc
         | _, _ => go rest cur su n acc
+      | ["RAW", h, bs], some (i, t, evs) =>
+        match fromHex h, fromHex bs with
+        | some h, some bs => go rest (some (i, t, .raw h bs :: evs)) su n acc
+        | _, _ => go rest cur su n acc
       | "RESP" :: _, _ => go rest cur su n acc
       | ["NORESP"], _ => go rest cur su n acc
       | "BAD" :: _, _ => go rest cur su n acc
@@ -558,19 +601,35 @@ def parseOps (lines : List String) : List OpRec :=
 /-- replay all operations; returns mismatch reports -/
 def replay (cx : Codecs) (comp : Nat → Bytes → Bytes) (debug : Bool) (ops : List OpRec) : List String :=
   let env := replayEnv cx comp debug
-  let rec go : List OpRec → Sess → List String → List String
-    | [], _, out => out
-    | op :: rest, s, out =>
-      match runOp env s { evs := op.evs } op.toks with
-      | none => go rest s (out ++ [s!"op {op.idx}: cannot interpret `{" ".intercalate op.toks}`"])
+  -- unread bytes stay in a connection's stream from one operation to the next
+  let rec go : List OpRec → Sess → List (Bytes × Bytes) → List String → List String
+    | [], _, _, out => out
+    | op :: rest, s, pend, out =>
+      -- connections belong to objects: they move with a client handed to a consumer / producer and die with a dropped one
+      let pend := match op.toks with
+        | "client_new" :: _ => dropStreams pend (strBytes "c")
+        | "consumer_create" :: "client" :: _ => if s.client.isSome then moveStreams pend (strBytes "c") (strBytes "k") else pend
+        | "consumer_create" :: _ => dropStreams pend (strBytes "k")
+        | "producer_create" :: "client" :: _ => if s.client.isSome then moveStreams pend (strBytes "c") (strBytes "p") else pend
+        | "producer_create" :: _ => dropStreams pend (strBytes "p")
+        | _ => pend
+      match runOp env s { evs := op.evs, pending := pend, owner := ownerOf op.toks } op.toks with
+      | none => go rest s pend (out ++ [s!"op {op.idx}: cannot interpret `{" ".intercalate op.toks}`"])
       | some (s', w, predicted) =>
         let out := out ++ w.mismatches.map (fun m => s!"op {op.idx} `{" ".intercalate (op.toks.take 2)}`: {m}")
         let out := if w.evs.isEmpty then out else
           out ++ [s!"op {op.idx} `{" ".intercalate (op.toks.take 2)}`: implementation did {w.evs.length} more I/O event(s) than the model"]
         let out := if predicted == op.result then out else
           out ++ [s!"op {op.idx} `{" ".intercalate (op.toks.take 2)}`: result differs: model `{predicted}` | implementation `{op.result}`"]
-        go rest s' out
-  go ops {} []
+        let pend := match op.toks with
+          | ["consumer_into_client"] => if predicted == "ok" then moveStreams w.pending (strBytes "k") (strBytes "c") else w.pending
+          | ["producer_into_client"] => if predicted == "ok" then moveStreams w.pending (strBytes "p") (strBytes "c") else w.pending
+          | ["consumer_drop"] => dropStreams w.pending (strBytes "k")
+          | "consumer_create" :: _ => if predicted == "ok" then w.pending else dropStreams w.pending (strBytes "k")
+          | "producer_create" :: _ => if predicted == "ok" then w.pending else dropStreams w.pending (strBytes "p")
+          | _ => w.pending
+        go rest s' pend out
+  go ops {} [] []
 
 end Kafka.Replay
 
